@@ -20,7 +20,7 @@ LEVEL_TEXT = ("Decides clauses C13-a/b/c: in both BasicAuth `fore` implementatio
 FORE = r"FangAction for (ohkami::fang::builtin::basicauth::BasicAuth<S>|\[ohkami::fang::builtin::basicauth::BasicAuth<S>; N\])>::fore$"
 
 AUDIT = [
-    {"fn": r"ohkami::util::base64_decode_utf8::\{closure#0\}$", "sink": r"^assert:BoundsCheck$",
+    {"fn": r"ohkami::util::base64_decode_utf8(::\{closure#0\})?$", "sink": r"^assert:BoundsCheck$",
      "guards": [{"kind": "operand", "which": "index", "from": {"call": r"Utf8Error::valid_up_to$"}}],
      "reason": "valid_up_to() is the offset of the first invalid byte of a failed from_utf8, which exists: pos < len"},
 ]
@@ -147,6 +147,8 @@ def c13a_gate(ck, prog):
     n = 0
     for fo in fores(prog):
         f = prog.coroutine_body(fo.key)
+        # the decode / split / compare steps may sit in a shared (possibly higher-order) helper
+        f = prog.flattened(f, r"split_once$|BasicAuth::<S>::matches$|base64_decode_utf8$|core::str::<impl str>::find$")
         which = "array" if "[ohkami" in fo.key else "single"
         oks = [s for s in paths.ret_sites(f) if s[1] not in ("residual", "Err")]
         if not oks:
@@ -162,16 +164,33 @@ def c13a_gate(ck, prog):
             if fa is None:
                 continue
             # the arguments of matches are the two halves of split_once(':') on the decoded credential
-            mcalls = [c for g in [f] + prog.descendants(f.key) for c in g.calls_to(r"basicauth::BasicAuth::<S>::matches$")]
+            mcalls = [c for g in [f] + ([] if f.rec.get("inlined") else prog.descendants(f.key)) for c in g.calls_to(r"basicauth::BasicAuth::<S>::matches$")]
+            if f.rec.get("inlined") and not mcalls:
+                mcalls = [c for g in prog.descendants(fo.key) for c in g.calls_to(r"basicauth::BasicAuth::<S>::matches$")]
             for c in mcalls:
                 g = c.fn
                 # name-independent: an argument is either the value itself or a captured variable, resolved in the enclosing body
                 def src_of(a):
+                    if g is not f and f.rec.get("inlined"):
+                        # the closure literal is built in the flattened body: its i-th captured operand is what upvar i holds
+                        pl = a[1] if a[0] in ("c", "m") else None
+                        st_ = g.origin(a)
+                        base = st_[-1] if st_ else None
+                        idx = None
+                        for x in (st_ or []):
+                            for pr in (x[2] if len(x) > 2 and isinstance(x[2], list) else []):
+                                if pr[0] == "f" and isinstance(pr[2], str) and pr[2].startswith("^"):
+                                    idx = pr[1]
+                        if idx is not None:
+                            for bi_ in sorted(f.live_blocks()):
+                                for st2 in f.blocks[bi_]["st"]:
+                                    if st2["k"] == "=" and st2["r"][0] == "agg" and st2["r"][1].get("k") == "closure" and st2["r"][1].get("def") == g.key and idx < len(st2["r"][2]):
+                                        return decision.describe_deep(f, st2["r"][2][idx], 10)
                     cap = paths.capture_desc(prog, g, a, 10) if g is not f else None
                     return cap if cap else decision.describe_deep(g, a, 10)
                 d1, d2 = src_of(c.args[1]), src_of(c.args[2])
                 src = d1[-60:] + " | " + d2[-60:]
-                ok = re.search(r"split_once\(.*@Continue\.0\.0$|split_once\(.*@Some\.0\.0$", d1) is not None and re.search(r"split_once\(.*@Continue\.0\.1$|split_once\(.*@Some\.0\.1$", d2) is not None
+                ok = re.search(r"split_once\(.*@(Continue|Some)\.0\.0(\.0)?$", d1) is not None and re.search(r"split_once\(.*@(Continue|Some)\.0\.1(\.1)?$", d2) is not None
                 if not ok:
                     # the same halves by position of the first colon: (&c[..i], &c[i + 1..]) with i = c.find(':')
                     m1 = re.search(r"index\((.*),RangeTo\{(.*)\}\)(?:\.\d)?$", d1)
@@ -203,6 +222,30 @@ def c13a_gate(ck, prog):
             # the (username, password) bound from its Some payload, and the split text comes from basic_credential_of
             recv = decision.describe_deep(f, sp[0].args[0], 8)
             ok2 = "basic_credential_of" in recv
+            if not ok2:
+                # with the credential helper spliced in: every value the split text can hold is the decoded credential
+                PASS = ("deref", "ok", "ok_or_else", "ok_or", "as_str", "as_ref", "branch", "unwrap", "expect", "borrow", "clone", "to_owned", "into", "from_residual")
+
+                def decoded_op(op, depth=8):
+                    if depth <= 0:
+                        return False
+                    lv = paths.leaf_values(f, op)
+                    if not lv:
+                        return False
+                    for l in lv:
+                        if l[0] != "call":
+                            return False
+                        c = l[1]
+                        if c.name in ("base64_decode_utf8", "basic_credential_of"):
+                            continue
+                        if c.name == "from_residual":
+                            continue      # the `?` residual (None / Err): never the successful value being split
+                        if c.name in PASS and c.args and decoded_op(c.args[0], depth - 1):
+                            continue
+                        return False
+                    return True
+                ok2 = decoded_op(sp[0].args[0])
+                recv = "every value: decoded credential" if ok2 else recv
             ck.ob("C13-a MUSTPASS gate", "%s:split-source" % which, ok2, f.loc(sp[0].sp), "" if ok2 else "split_once is applied to `%s`, not to the result of basic_credential_of" % recv, how=recv)
     ck.floor("C13-a MUSTPASS gate", "Ok returns of fore", n, 2)
 
@@ -231,6 +274,7 @@ def c13a_credential(ck, prog):
         ok2 = "strip_prefix" in src
         ck.ob("C13-a credential", "base64-arg", ok2, g.loc(dec[0].sp), "" if ok2 else "base64 input is `%s`, not the text after the `Basic ` prefix" % src, how=src)
         d = prog.one(r"^ohkami::util::base64_decode_utf8$")
+        d = prog.inlined(d, 1, r"Engine>?::decode$|engine::Engine::decode$")     # may go through base64_decode()
         eng = [c for c in d.calls_to(r"Engine>?::decode$|engine::Engine::decode$")]
         recv = decision.describe_deep(d, eng[0].args[0], 3) if eng else "?"
         cons = [st["r"] for b in d.blocks for st in b["st"] if st["k"] == "=" and "STANDARD" in str(st["r"])]
@@ -241,6 +285,18 @@ def c13a_credential(ck, prog):
 def c13b(ck, prog):
     un = prog.one(r"basicauth::(_::)?unauthorized$")
     bodies = [prog.coroutine_body(fo.key) for fo in fores(prog)] + [prog.one(r"basicauth::(_::)?basic_credential_of$")]
+    # helpers of the module that fore goes through (an `authenticate(req, ..)` shared by both impls)
+    seen = {b.key for b in bodies}
+    work = list(bodies)
+    while work:
+        h = work.pop()
+        for g_ in [h] + prog.descendants(h.key):
+            for c in g_.calls():
+                t = prog.fns.get(c.callee or "")
+                if t is not None and "fang::builtin::basicauth::" in t.key and t.key not in seen and t.name not in ("unauthorized", "matches"):
+                    seen.add(t.key)
+                    bodies.append(t)
+                    work.append(t)
     n = 0
     for f in bodies:
         for g in [f] + prog.descendants(f.key):
@@ -258,7 +314,7 @@ def c13b(ck, prog):
                 ok = src == "fn:unauthorized" or "unauthorized(" in src
                 ck.ob("C13-b rejections", "%s:%s" % (f.key.rsplit("::", 2)[-2][-30:] + "::" + g.name, c.name) + "@" + decision.describe_deep(g, c.args[0], 2)[:40], ok, g.loc(c.sp),
                       "" if ok else "error value comes from `%s`, expected unauthorized" % src, how="error = " + src)
-    ck.floor("C13-b rejections", "error-producing sites", n, 5)
+    ck.floor("C13-b rejections", "error-producing sites", n, 3)
     # unauthorized(): 401 + WWW-Authenticate: Basic ...
     st = un.calls_to(r"Response>::Unauthorized$")
     ok = len(st) >= 1
